@@ -55,12 +55,16 @@ CLAIMS.update({
 
 PART = " PARTIAL CLAIM: "
 CLAIMS.update({
+    "C01": dict(
+        text="The unit every output node comes from — one call of the private CompressFromHash::build_node, driven through an add-only hook from an ARBITRARY valid table (1-3 rows: all keys, extension sets, payloads), availability subset containing the seed, strandedness and seed row — is proved against a reference walk written in string terms: the node sequence has one base per member beyond the first; the seed and every walked k-mer sit at exactly the offset of their position in the chain, in their walked orientation (so consecutive members overlap by K-1 and follow the extension that was walked); no row outside the chain is consumed and every chain member leaves the availability set (hence a k-mer can enter only one node); the payload equals the caller's reduction over exactly the member rows (commutative test reduction, and the payload-equality spec); the node's extensions are the outward extensions of its two end k-mers in node orientation. extend_kmer (the whole walk) is decided separately." + PART + "the outer seed loop of compress_kmers (`for every still-available row: build_node, add`), BaseGraph::add of a symbolic-length sequence into the packed store (its one-step form is decided under C14), compress_kmers_no_exts (HashSet) and the finished graph are NOT executed: compress_kmers on 2 rows exceeds 30 GB in CBMC.",
+        note="Bounds: tables of 2-3 rows over Kmer4 (quick), 1-3 rows over Kmer3/4 and 2 rows over Kmer5/6 (thorough). boomphf = model M1. Assumed table validity: distinct keys, canonical when unstranded, reciprocal extension on every examined link (the code's documented unreachable panic). Scratch deque pre-reserved by the harness (capacity unobservable) with VecDeque::grow stubbed to an asserted-unreachable (S6). Stubs S1, S2, S6.",
+        ref="DESIGN.md §5 C01"),
     "C02": dict(
-        text="The join decision every node is built from — one call of the private try_extend_kmer, driven through an add-only hook from an ARBITRARY valid table (1-3 rows, all keys/extension sets/payloads), availability subset, strandedness, direction and start row — is proved to return Unique(next, dir, exts) exactly when the link is the sole extension on both facing sides, joins two distinct non-palindromic k-mers, the target is present and available and the join predicate (always-true and payload-equality) accepts; otherwise Terminal with the walking side's extensions." + PART + "growth-to-exhaustion, cycle cutting and uniqueness of the decomposition live in heap loops (build_node on 2 rows > 12 GB in CBMC) and are NOT covered.",
+        text="The join decision every node is built from — one call of the private try_extend_kmer, driven through an add-only hook from an ARBITRARY valid table (1-3 rows, all keys/extension sets/payloads), availability subset, strandedness, direction and start row — is proved to return Unique(next, dir, exts) exactly when the link is the sole extension on both facing sides, joins two distinct non-palindromic k-mers, the target is present and available and the join predicate (always-true and payload-equality) accepts; otherwise Terminal with the walking side's extensions. The growth loop itself (extend_kmer, via a second hook) is proved, on 2-3-row tables, to continue exactly while that decision says Unique, to visit the rows the reference walk visits, to remove exactly those rows from the availability set and to report the last k-mer's walking-side extensions — so a node ends only where no joinable link is left (maximality), and build_node (C01) walks left then right from the seed." + PART + "the outer seed loop, cycle cutting on whole inputs and uniqueness of the global decomposition are NOT executed (compress_kmers on 2 rows > 30 GB in CBMC).",
         note="Bounds: tables of 1-3 rows over Kmer4 / 2 rows over Kmer3 (quick), also Kmer2,5,6 with 3 rows (thorough). boomphf = model M1 (key-verified lookup). Assumed table validity: distinct keys, canonical when unstranded, reciprocal extension on the examined link (the code's documented unreachable panic). Stubs S1, S2.",
         ref="DESIGN.md §5 C02"),
     "C03": dict(
-        text="find_link on 2-3-node graphs for ALL 4^K query k-mers (present and absent), both directions, stranded and unstranded: Some((id, side, flip)) iff that node end spells the query (or its reverse complement, unstranded only), with the documented precedence, None otherwise; get_valid_exts/fix_exts keep a bit iff set and resolving to a valid node; remove_censored_exts and _sharded on every sorted table of <= 3 rows keep exactly the bits whose canonical target is valid / not (present-in-all-kmers and invalid) and change nothing else; the Exts algebra for all 256 sets." + PART + "equality of the edge set with the input's (K+1)-mers, u<->v symmetry on built graphs, and the best-path queries (HashSet/VecDeque/float scores) are NOT covered; find_edges lists only in the thorough tier (SmallVec pushes at symbolic offsets exceed 12 GB).",
+        text="find_link on 2-3-node graphs for ALL 4^K query k-mers (present and absent), both directions, stranded and unstranded: Some((id, side, flip)) iff that node end spells the query (or its reverse complement, unstranded only), with the documented precedence, None otherwise; get_valid_exts/fix_exts keep a bit iff set and resolving to a valid node; remove_censored_exts and _sharded on every sorted table of <= 3 rows keep exactly the bits whose canonical target is valid / not (present-in-all-kmers and invalid) and change nothing else; the Exts algebra for all 256 sets." + PART + "equality of the edge set with the input's (K+1)-mers, u<->v symmetry on built graphs, and the best-path queries (HashSet/VecDeque/float scores) are NOT covered; find_edges / Node::{l_edges,r_edges,edges} return exactly the set extension bits that resolve, in base order (2-node graph quick, further shapes thorough; SmallVec heap spill stubbed to an asserted-unreachable, S7).",
         note="Bounds: K in {3,4}, node lengths K..K+1, graphs of 2 nodes (quick) / 3 nodes (thorough); censoring tables over Kmer4 (quick), Kmer3/5/8 (thorough). boomphf = model M1; node-end k-mers assumed pairwise distinct per side (MPHF precondition). Stubs S1, S2.",
         ref="DESIGN.md §5 C03"),
     "C05": dict(
@@ -86,7 +90,6 @@ CLAIMS.update({
 })
 
 NOT_APPLICABLE = {
-    "C01": "statement is about the result of the growth loops over BitSet/Vec/VecDeque/PackedDnaStringSet; build_node on a 2-row table exceeded 12 GB and compress_kmers on 2 rows 31 GB in CBMC — no heap-light unit carries the partition/payload claim (the join decision itself is claimed under C02)",
     "C04": "whole-pipeline equivalence (msp -> per-shard filter -> compress -> combine -> finish -> recompress, twice); every stage but the first is individually beyond the solver's reach (measured, DESIGN §8); its local ingredients are decided under C08/C05/C02/C09",
     "C19": "Kani has no thread model and rayon's pool cannot be encoded; the MPHF builder is float-sized and wyhash-driven with collision-dependent levels; 10^5-node graphs are far outside any bound",
     "C20": "core::fmt / serde_json formatting and parsing of symbolic data: write_gfa on a one-node graph into a fixed-array sink ran past 6 GB in 190 s; serialisation is a listed weak target for this technique",
